@@ -418,10 +418,12 @@ class Segment(object):
         while len(self.elements) <= ele_idx:
             # insert blank values before our value if needed
             self.elements.append(Composite('', self.subele_term))
-        if self.seg_id == 'ISA' and ele_idx == 15:
-            #Special handling for ISA segment
-            #guarantee subele_term will not be matched
-            self.elements[ele_idx] = Composite(val, self.ele_term)
+        if self.seg_id == 'ISA' and ele_idx in (10, 15):
+            #Special handling for ISA segment: ISA11 and ISA16 hold delimiters,
+            #which must not be split at any delimiter (not even at themselves)
+            whole = Composite('', self.ele_term)
+            whole.elements = [Element(val)]
+            self.elements[ele_idx] = whole
             return
         if comp_idx is None:
             self.elements[ele_idx] = Composite(val, self.subele_term)
